@@ -776,6 +776,46 @@ func (e *Exec) doAssert(label string, c *Term) {
 			viol = e.currentScenario("violation", label)
 		}
 		e.popModel()
+		if r == "unknown" && !hard {
+			// a fresh (non-incremental) run of the primary solver often decides what its incremental session could not
+			r = e.freshPrimary(q)
+		}
+		if r == "unknown" {
+			if d := os.Getenv("GOSYM_DUMP_UNKNOWN"); d != "" {
+				e.flush()
+				var sb strings.Builder
+				for _, l := range e.tc.log {
+					sb.WriteString(l)
+					sb.WriteByte('\n')
+				}
+				sb.WriteString("(assert " + q.ref + ")\n(check-sat)\n")
+				os.MkdirAll(d, 0o755)
+				os.WriteFile(fmt.Sprintf("%s/%s-%d.smt2", d, strings.NewReplacer("/", "_", " ", "_").Replace(label), len(e.taken)), []byte(sb.String()), 0o644)
+			}
+		}
+		if r == "unknown" {
+			// second attempt: the same query with the defining inequalities of its symbolic divisions spelled out
+			if ls := e.tc.divLemmas(append([]*Term{q}, e.pc...)); len(ls) > 0 {
+				e.flush()
+				e.solver.Push()
+				for _, l := range ls {
+					e.flush()
+					e.solver.send("(assert " + l.ref + ")")
+				}
+				r2 := e.checkWith(q, tmo)
+				if r2 == "sat" {
+					viol = e.currentScenario("violation", label)
+				}
+				e.popModel()
+				e.solver.Pop()
+				if r2 != "unknown" {
+					r = r2
+					h.mu.Lock()
+					h.intrinsics["second-attempt-with-div-lemmas:"+r2]++
+					h.mu.Unlock()
+				}
+			}
+		}
 		if r == "unknown" {
 			// the solver could not decide: look for a concrete counterexample by a random walk from the path's model
 			if e.model == nil {
@@ -864,7 +904,12 @@ func (e *Exec) assumeAfterAssert(c *Term) {
 }
 
 // portfolio re-asks an undecided query of the other solvers with a standalone script.
-func (e *Exec) portfolio(q *Term) string {
+func (e *Exec) portfolio(q *Term) string { return e.portfolioOf(q, []string{"cvc5", "z3"}) }
+
+// freshPrimary re-asks the query of a fresh, non-incremental run of the primary solver.
+func (e *Exec) freshPrimary(q *Term) string { return e.portfolioOf(q, []string{e.solver.name}) }
+
+func (e *Exec) portfolioOf(q *Term, names []string) string {
 	e.flush()
 	var sb strings.Builder
 	for _, l := range e.tc.log {
@@ -873,10 +918,7 @@ func (e *Exec) portfolio(q *Term) string {
 	}
 	sb.WriteString("(assert " + q.ref + ")\n(check-sat)\n")
 	script := sb.String()
-	for _, name := range []string{"cvc5", "z3"} {
-		if name == e.solver.name {
-			continue
-		}
+	for _, name := range names {
 		r := runOneShot(name, script, e.h.assertTimeoutMs)
 		if r == "sat" || r == "unsat" {
 			e.h.mu.Lock()
